@@ -158,3 +158,21 @@ def nativize_text_layer():
     nativize(cpp_gen.Function, 'as_decl', 'as_def')
     nativize(common.CppPorts, 'accessors_decl', 'accessors_def', 'rerouting_class_members')
     nativize(common.Facilities, 'accessors_decl', 'accessors_def', 'member_variables')
+
+
+_PARSER_DONE = [False]
+
+
+def nativize_parser_layer(silence_print: bool = True):
+    """Nativize json_ast.parse_* (sub-documents without symbolic values are parsed untraced) and give
+    the module-level print() an empty body (printing a symbolic value makes CrossHair realise it, one
+    path per concrete value)."""
+    if _PARSER_DONE[0]:
+        return
+    _PARSER_DONE[0] = True
+    from dznpy import json_ast
+    for name in list(vars(json_ast)):
+        if name.startswith('parse_') and callable(getattr(json_ast, name)):
+            setattr(json_ast, name, nativize_fn(getattr(json_ast, name)))
+    if silence_print:
+        json_ast.print = lambda *a, **k: None
